@@ -33,8 +33,11 @@ def main():
         print(o)
         return 2
     try:
-        demo_cpp = os.path.join(src, 'demo.cpp')
-        demo_sh = os.path.join(src, 'demo.sh')
+        # run the demo from a copy inside the scratch worktree (some demos locate the tree relative to their own path)
+        local = os.path.join(WT, 'SEED', X)
+        shutil.copytree(src, local)
+        demo_cpp = os.path.join(local, 'demo.cpp')
+        demo_sh = os.path.join(local, 'demo.sh')
         engine_srcs = ' '.join(sorted(p for p in glob.glob(WT + '/engine/*.cpp') if not p.endswith('main.cpp')))
         # a config header for the demo build
         os.makedirs(WT + '/build', exist_ok=True)
@@ -54,7 +57,7 @@ def main():
                 return c, o[-1500:]
         c0, o0 = run_demo('orig')
         meta['steps'].append(dict(step='demo on unchanged tree', exit=c0, tail=o0[-400:]))
-        c, o = sh('git apply %s' % os.path.join(src, 'patch.diff'), cwd=WT)
+        c, o = sh('git apply %s' % os.path.join(src, 'patch.diff'), cwd=WT)  # the SEED/ copy is untracked and not part of the patch
         meta['steps'].append(dict(step='git apply patch.diff', exit=c, tail=o[-300:]))
         if c:
             print('patch does not apply', o)
